@@ -193,6 +193,9 @@ func (g *FuncGen) aliasTargets(alias string, pkg *types.Package) map[string]bool
 }
 
 func (g *FuncGen) lookupName(env *Env, name string) (Val, bool) {
+	if env.ambig[name] {
+		g.unsup("ghost statement uses %q, which names both a parameter of the callee and a variable of the caller: use argN for the callee's, or capture the caller's value in a ghost variable first", name)
+	}
 	if v, ok := env.vars[name]; ok {
 		return v, true
 	}
